@@ -104,22 +104,25 @@ def gen_vector(rnd, rt, workdir, mk_wenc):
     plain = plain[:n]
     cmode, hmode = rnd.randrange(5), rnd.randrange(3)
     # ---- -i
-    icls = pick(["valid"] * 8 + ["absent", "missing", "dir", "empty", "long100", "long123", "long200", "long1000", "long4000", "long5000"])
+    icls = pick(["valid"] * 8 + ["absent", "missing", "dir", "empty", "long100", "long123", "long200", "long1000", "long4000",
+                                 "long4085", "long4090", "long4091", "long4093", "long4095", "long4096", "long5000"])
     inpath = None
     if icls != "absent":
         name = "in.bin"
         if icls.startswith("long"):
             L = int(icls[4:])
-            # real nested directories so that the path is that long and (up to PATH_MAX) openable
+            # real nested directories; the RELATIVE path handed to the program is exactly L characters long (the
+            # kernel's PATH_MAX applies to the string passed to open(), the program runs with cwd = the scratch dir)
             parts = []
-            rem = L - len(workdir) - 1
+            rem = L
             while rem > 0:
                 k = min(200, rem)
+                if rem - k == 1:      # never leave a lone separator
+                    k -= 1
                 parts.append("p" * k)
                 rem -= k + 1
-            if not parts:
-                parts = ["p" * 10]
             name = "/".join(parts)
+            assert len(name) == L, (len(name), L)
         inpath = name
         if icls == "missing":
             pass
@@ -135,10 +138,9 @@ def gen_vector(rnd, rt, workdir, mk_wenc):
             v.files[name] = content
         v.opts.append(("-i", name))
     v.infile = inpath
-    total_in = len(os.path.join(workdir, inpath)) if inpath else 0
-    in_openable = inpath is not None and icls not in ("missing",) and total_in < 4096 and icls != "long5000"
-    if icls in ("long4000", "long5000") and total_in >= 4096:
-        in_openable = False
+    total_in = len(inpath) if inpath else 0
+    in_openable = inpath is not None and icls not in ("missing",) and total_in < 4096
+    if total_in >= 4096:
         # the file cannot even be created; do not try
         v.files.pop(inpath, None)
     if op and not in_openable:
@@ -170,7 +172,7 @@ def gen_vector(rnd, rt, workdir, mk_wenc):
         if op == "e" and inpath:
             v.outfile = inpath + ".wenc"
             comp = os.path.basename(v.outfile)
-            if len(comp) > 255 or len(os.path.join(workdir, v.outfile)) >= 4096:
+            if len(comp) > 255 or len(v.outfile) >= 4096:
                 fails.append("default output name too long")
     # ---- -k
     kcls = pick(["valid"] * 7 + ["absent"] * 3 + ["wrong", "len23", "len25", "len20", "len28", "len280", "len25pad", "len26pad", "len27pad", "highbit", "badchar", "pad0", "pad1", "pad3", "empty"])
@@ -277,18 +279,38 @@ def gen_vector(rnd, rt, workdir, mk_wenc):
     return v
 
 
+def _mk_rel(wd, rel, content=None):
+    """Creates rel (directories, and a file if content is not None) below wd step by step with dir_fd, so that the
+    ABSOLUTE path may exceed PATH_MAX while the relative one does not."""
+    parts = rel.split("/")
+    dirs = parts if content is None else parts[:-1]
+    fd = os.open(wd, os.O_RDONLY | os.O_DIRECTORY)
+    try:
+        for comp in dirs:
+            try:
+                os.mkdir(comp, dir_fd=fd)
+            except FileExistsError:
+                pass
+            nfd = os.open(comp, os.O_RDONLY | os.O_DIRECTORY, dir_fd=fd)
+            os.close(fd)
+            fd = nfd
+        if content is not None:
+            ffd = os.open(parts[-1], os.O_WRONLY | os.O_CREAT | os.O_TRUNC, 0o644, dir_fd=fd)
+            with os.fdopen(ffd, "wb") as f:
+                f.write(content)
+    finally:
+        os.close(fd)
+
+
 def prepare(v, wd):
     os.makedirs(wd, exist_ok=True)
-    for d in v.dirs:
-        os.makedirs(os.path.join(wd, d), exist_ok=True)
-    for rel, content in v.files.items():
-        p = os.path.join(wd, rel)
-        try:
-            os.makedirs(os.path.dirname(p), exist_ok=True)
-            with open(p, "wb") as f:
-                f.write(content)
-        except OSError:
-            return False
+    try:
+        for d in v.dirs:
+            _mk_rel(wd, d)
+        for rel, content in v.files.items():
+            _mk_rel(wd, rel, content)
+    except OSError:
+        return False
     return True
 
 
@@ -309,14 +331,40 @@ def run_one(binary, v, wd, env, timeout=45.0):
     return dict(status=status, rc=p.returncode, out=out.decode("latin1"), err=err.decode("latin1"), wall=time.time() - t0)
 
 
+def _read_rel(wd, rel):
+    fd = os.open(wd, os.O_RDONLY | os.O_DIRECTORY)
+    try:
+        parts = rel.split("/")
+        for comp in parts[:-1]:
+            nfd = os.open(comp, os.O_RDONLY | os.O_DIRECTORY, dir_fd=fd)
+            os.close(fd)
+            fd = nfd
+        ffd = os.open(parts[-1], os.O_RDONLY, dir_fd=fd)
+        with os.fdopen(ffd, "rb") as f:
+            return f.read()
+    finally:
+        os.close(fd)
+
+
 def effect(rt, v, wd, res):
     """Did the requested operation actually happen?  Computed with the reference, never with /repo code."""
     if v.op == "e":
         if not v.outfile:
             return False, "no output path"
-        outp = os.path.join(wd, v.outfile)
-        if not os.path.isfile(outp):
+        try:
+            data = _read_rel(wd, v.outfile) if not v.outfile.startswith("/") else open(v.outfile, "rb").read()
+        except OSError:
             return False, "no output file"
+        outp = os.path.join(wd, "ref_in.wenc")
+        with open(outp, "wb") as f:
+            f.write(data)
+        # the input must be untouched as well
+        if v.infile and v.infile in v.files:
+            try:
+                if _read_rel(wd, v.infile) != v.files[v.infile]:
+                    return False, "the input file was modified"
+            except OSError:
+                return False, "the input file vanished"
         key = v.key
         if key is None:
             m = re.search(r"Key is:\s*([A-Za-z0-9+/]{22}==)", res["out"])
@@ -331,19 +379,17 @@ def effect(rt, v, wd, res):
             got = f.read()
         return (got == v.plain), "reference decrypts output to %d bytes, input has %d" % (len(got), len(v.plain))
     if v.op == "d":
-        outp = os.path.join(wd, v.outfile)
-        if not os.path.isfile(outp):
+        try:
+            got = _read_rel(wd, v.outfile) if not v.outfile.startswith("/") else open(v.outfile, "rb").read()
+        except OSError:
             return False, "no output file"
-        with open(outp, "rb") as f:
-            got = f.read()
-        inp = os.path.join(wd, v.infile)
-        r = subprocess.run([rt, "auth", inp, v.key.hex()], capture_output=True, text=True)
+        # relative path + cwd: the absolute path of a deep input may exceed PATH_MAX
+        r = subprocess.run([rt, "auth", v.infile, v.key.hex()], capture_output=True, text=True, cwd=wd)
         if r.stdout.strip() != "0":
             return False, "input not authentic under this key (ref code %s)" % r.stdout.strip()
         return (got == v.plain), "output %d bytes vs expected %d" % (len(got), len(v.plain))
     if v.op == "v":
-        inp = os.path.join(wd, v.infile)
-        r = subprocess.run([rt, "auth", inp, v.key.hex()], capture_output=True, text=True)
+        r = subprocess.run([rt, "auth", v.infile, v.key.hex()], capture_output=True, text=True, cwd=wd)
         return (r.stdout.strip() == "0"), "ref auth code %s" % r.stdout.strip()
     return False, "no operation"
 
